@@ -56,8 +56,10 @@ Fixpoint trim_left (f : N -> bool) (s : str) : str :=
   | c :: t => if f c then trim_left f t else s
   | [] => []
   end.
+(* reversal in linear time (documents holding a bag of cells are long) *)
+Definition frev (s : str) : str := rev_append s [].
 Definition trim (f : N -> bool) (s : str) : str :=
-  rev (trim_left f (rev (trim_left f s))).
+  frev (trim_left f (frev (trim_left f s))).
 
 Definition is_quote (c : N) : bool := c =? 34.
 Definition is_quote_sp_nl (c : N) : bool := (c =? 34) || (c =? 32) || (c =? 10).   (* cutset: quote, space, newline *)
